@@ -111,7 +111,10 @@ Definition apply_bi (b : bi) (vs : list value) (o : list value) : res * list val
 
 (* ---- state ---------------------------------------------------------------------------------- *)
 Inductive callee := CB (b : bi) | CD (f : string) (a : nat).   (* Dynamic{Name: f, Self: heap[a]} *)
-Record lam := mkLam { l_name : string; l_params : list string; l_forms : list sexp; l_place : bool }.
+(* l_clos: the variables of the scope the function was defined in when that is not the top level (Lambda.Closure;
+   here: the bindings of a top-level `let` around the defun); they are searched after the parameters and before
+   the caller's scope (Lambda.Call: parents = [Closure, caller]) *)
+Record lam := mkLam { l_name : string; l_params : list string; l_forms : list sexp; l_place : bool; l_clos : env }.
 Record state := mkSt {
   heap : list lam;                 (* Lambda objects by address *)
   lambdas : list (string * nat);   (* Package.lambdas *)
@@ -319,7 +322,7 @@ Definition call_lambda (ev : state -> env -> sexp -> res * state) (st : state) (
       if l_place l then (Err EUndefined, st)
       else match arity_err (List.length (l_params l)) (List.length vs) with
            | Some e => (Err e, st)
-           | None => eval_body ev st (bind (l_params l) vs ++ en) (l_forms l) VNil
+           | None => eval_body ev st (bind (l_params l) vs ++ l_clos l ++ en) (l_forms l) VNil
            end
   end.
 
@@ -363,7 +366,7 @@ Definition resolve_or_place (st : state) (f : string) : callee * state :=
   | Some c => (c, st)
   | None =>
       let a := List.length (heap st) in
-      (CD f a, mkSt (heap st ++ [mkLam f [] [] true]) ((f, a) :: lambdas st) ((f, a) :: funcs st) (marks st) (out st))
+      (CD f a, mkSt (heap st ++ [mkLam f [] [] true []]) ((f, a) :: lambdas st) ((f, a) :: funcs st) (marks st) (out st))
   end.
 Definition marked (st : state) (e : sexp) : bool :=
   match e with
@@ -398,10 +401,13 @@ Fixpoint set_nth {A} (l : list A) (i : nat) (x : A) : list A :=
    a Lambda already registered for the name (an earlier definition, or the placeholder of an earlier call - also
    of the recursive call in this very body) takes the new definition over in place and stays registered; the
    Lambda registered after the call is the one the new creator hands out (repo_fixes/C08-3: `lc = pkg.DefLambda(..)`;
-   before that repair the creator captured the new Lambda a, which no later definition updates) *)
-Definition defunM (st : state) (name : string) (ps : list string) (body : list sexp) : state :=
+   before that repair the creator captured the new Lambda a, which no later definition updates).
+   The whole definition is taken over: lambda list, forms AND closure (`reg.Closure = lam.Closure`, nil, then
+   `lc.Closure = s` when the defining scope has parents): a top-level redefinition of a function first defined
+   inside a `let` has no closure. *)
+Definition defunM (st : state) (name : string) (ps : list string) (body : list sexp) (clos : env) : state :=
   let a := List.length (heap st) in
-  let newl := mkLam name ps body false in
+  let newl := mkLam name ps body false clos in
   let st1 := mkSt (heap st ++ [newl]) (lambdas st) (funcs st) (marks st) (out st) in
   let st2 := fold_left compile_slot body st1 in
   let '(hp, lms, reg) := match slookup name (lambdas st2) with
@@ -433,21 +439,61 @@ Definition parse_defun (e : sexp) : option (string * list string * list sexp) :=
       if String.eqb d "defun" then match syms ps with Some xs => Some (name, xs, body) | None => None end else None
   | _ => None
   end.
-(* (defvar name k) sets the package variable when there is none; (defparameter name k) always.
-   Only integer literals as initial values are in the fragment. *)
-Definition parse_gdef (e : sexp) : option (bool * string * Z) :=
-  match e with
-  | SList _ [SSym d; SSym name; SInt z] =>
-      if String.eqb d "defvar" then Some (false, name, z)
-      else if String.eqb d "defparameter" then Some (true, name, z) else None
+(* (let ((x k) ...) (defun name params form...)) as a top-level form: Let.Call makes a scope with the bindings and
+   evaluates the defun in it, so the function gets that scope as its closure.  Code.Compile does not treat it as
+   a definition (the head is `let`): it is evaluated when the code object runs.  Bindings to integers only. *)
+Fixpoint let_binds (l : list sexp) : option env :=
+  match l with
+  | [] => Some []
+  | SList _ [SSym x; SInt z] :: r => match let_binds r with Some bs => Some ((x, VInt z) :: bs) | None => None end
   | _ => None
   end.
-Definition gdef (gv : env) (always : bool) (name : string) (z : Z) : env :=
-  if always then (gkey name, VInt z) :: gv
-  else match slookup (gkey name) gv with
-       | None => (gkey name, VInt z) :: gv
-       | Some _ => gv
-       end.
+Definition parse_letdefun (e : sexp) : option (env * string * list string * list sexp) :=
+  match e with
+  | SList _ [SSym l; SList _ bs; d] =>
+      if String.eqb l "let" then
+        match let_binds bs, parse_defun d with
+        | Some clos, Some (nm, ps, body) => Some (clos, nm, ps, body)
+        | _, _ => None
+        end
+      else None
+  | _ => None
+  end.
+(* (defvar name init) sets the package variable when there is none - and only then evaluates init;
+   (defparameter name init) always.  init is any form of the fragment. *)
+Definition parse_gdef (e : sexp) : option (bool * string * sexp) :=
+  match e with
+  | SList _ [SSym d; SSym name; init] =>
+      if String.eqb d "defvar" then Some (false, name, init)
+      else if String.eqb d "defparameter" then Some (true, name, init) else None
+  | _ => None
+  end.
+(* pkg/cl/defparameter.go: SkipEval {true, false, true}: the init form is an ordinary argument of Function.Eval -
+   a list is converted and stored before it is evaluated, a Values object is replaced by its first value.
+   pkg/cl/defvar.go: SkipEval {true}: when the variable has a value nothing is evaluated; otherwise EvalArg on
+   Function.Eval's copy of the arguments (an empty list value becomes nil, Values are kept), the converted form
+   is written back after Call returned normally (like `if`).  Both evaluate in the scope they are called in: the
+   top-level scope when the code object runs, a fresh scope in Code.Compile - no local variables either way. *)
+Definition gdef_eval (ev : state -> env -> sexp -> res * state) (st : state) (gv : env) (always : bool) (nm : string)
+  (init : sexp) : res * state * env :=
+  if always then
+    match premark st init with
+    | None => (Err EUndefined, st, gv)
+    | Some st1 =>
+        match ev st1 gv init with
+        | (Val v, st2) => (Val (VSym nm), st2, (gkey nm, first_val v) :: gv)
+        | (r, st2) => (r, st2, gv)
+        end
+    end
+  else
+    match slookup (gkey nm) gv with
+    | Some _ => (Val (VSym nm), st, gv)
+    | None =>
+        match ev st gv init with
+        | (Val v, st1) => (Val (VSym nm), apply_def st1 (deferred st init), (gkey nm, norm v) :: gv)
+        | (r, st1) => (r, st1, gv)
+        end
+    end.
 
 Fixpoint run_forms (n : nat) (st : state) (gv : env) (fs : list tform) (lastv : value) : res * state * env :=
   match fs with
@@ -455,45 +501,72 @@ Fixpoint run_forms (n : nat) (st : state) (gv : env) (fs : list tform) (lastv : 
   | TQuote nm :: r => run_forms n st gv r (VSym nm)
   | TForm e :: r =>
       match parse_defun e with
-      | Some (nm, ps, body) => run_forms n (defunM st nm ps body) gv r (VSym nm)
+      | Some (nm, ps, body) => run_forms n (defunM st nm ps body []) gv r (VSym nm)
       | None =>
-          match parse_gdef e with
-          | Some (always, nm, z) => run_forms n st (gdef gv always nm z) r (VSym nm)
-          | None => match evalM n st gv e with (Val v, st1) => run_forms n st1 gv r v | (x, st1) => (x, st1, gv) end
+          match parse_letdefun e with
+          | Some (clos, nm, ps, body) => run_forms n (defunM st nm ps body clos) gv r (VSym nm)
+          | None =>
+              match parse_gdef e with
+              | Some (always, nm, init) =>
+                  match gdef_eval (evalM n) st gv always nm init with
+                  | (Val v, st1, gv1) => run_forms n st1 gv1 r v
+                  | x => x
+                  end
+              | None => match evalM n st gv e with (Val v, st1) => run_forms n st1 gv r v | (x, st1) => (x, st1, gv) end
+              end
           end
       end
   end.
-(* Code.Compile, first loop: definitions (defun, defvar, defparameter) are evaluated and replaced by (quote name) *)
-Fixpoint compile_defs (st : state) (gv : env) (fs : list tform) : state * env * list tform :=
+(* Code.Compile, first loop, ONE pass in source order: every top-level defun, defvar, defparameter form is
+   evaluated - the init form of a variable with the function definitions made so far - and replaced by
+   (quote name).  A condition signalled by an init form leaves Compile: the forms from that one on stay as they
+   are and the second loop does not run. *)
+Fixpoint compile_defs (n : nat) (st : state) (gv : env) (fs : list tform) : res * state * env * list tform :=
   match fs with
-  | [] => (st, gv, [])
+  | [] => (Val VNil, st, gv, [])
   | TForm e :: r =>
       match parse_defun e with
       | Some (nm, ps, body) =>
-          let '(st', gv', r') := compile_defs (defunM st nm ps body) gv r in (st', gv', TQuote nm :: r')
+          let '(x, st', gv', r') := compile_defs n (defunM st nm ps body []) gv r in (x, st', gv', TQuote nm :: r')
       | None =>
-          match parse_gdef e with
-          | Some (always, nm, z) => let '(st', gv', r') := compile_defs st (gdef gv always nm z) r in (st', gv', TQuote nm :: r')
-          | None => let '(st', gv', r') := compile_defs st gv r in (st', gv', TForm e :: r')
+          match parse_letdefun e with
+          | Some _ => let '(x, st', gv', r') := compile_defs n st gv r in (x, st', gv', TForm e :: r')
+          | None =>
+              match parse_gdef e with
+              | Some (always, nm, init) =>
+                  match gdef_eval (evalM n) st gv always nm init with
+                  | (Val _, st1, gv1) => let '(x, st', gv', r') := compile_defs n st1 gv1 r in (x, st', gv', TQuote nm :: r')
+                  | (x, st1, gv1) => (x, st1, gv1, TForm e :: r)
+                  end
+              | None => let '(x, st', gv', r') := compile_defs n st gv r in (x, st', gv', TForm e :: r')
+              end
           end
       end
-  | t :: r => let '(st', gv', r') := compile_defs st gv r in (st', gv', t :: r')
+  | t :: r => let '(x, st', gv', r') := compile_defs n st gv r in (x, st', gv', t :: r')
   end.
-(* second loop: the remaining lists are compiled *)
+(* second loop: the remaining lists are compiled (CompileList of a `let` form makes the Let function object and,
+   `let` being SkipEval, nothing else) *)
 Definition compile_rest (st : state) (fs : list tform) : state :=
-  fold_left (fun s t => match t with TForm e => compile_slot s e | TQuote _ => s end) fs st.
+  fold_left (fun s t => match t with
+                        | TForm e => match parse_letdefun e with Some _ => s | None => compile_slot s e end
+                        | TQuote _ => s end) fs st.
 
 Record mstate := mkM { ms : state; mgv : env; codes : list (nat * list tform) }.
 Definition minit : mstate := mkM init [] [].
-Definition obs := (res * list value)%type.   (* outcome of one ORun: result or error, and what was emitted *)
+Definition obs := (res * list value)%type.
+(* outcome of one ORun: result or error, and what was emitted; of one OCompile: nil or the condition that left
+   Code.Compile, and what the init forms evaluated at compile time emitted *)
 Definition stepM (n : nat) (m : mstate) (o : op) : mstate * option obs :=
   match o with
   | OLoad cid forms => (mkM (ms m) (mgv m) ((cid, map TForm forms) :: codes m), None)
   | OCompile cid =>
       match nlookup cid (codes m) with
       | None => (m, None)
-      | Some fs => let '(st1, gv1, fs') := compile_defs (ms m) (mgv m) fs in
-                   (mkM (compile_rest st1 fs') gv1 ((cid, fs') :: codes m), None)
+      | Some fs => let '(x, st1, gv1, fs') := compile_defs n (set_out (ms m) []) (mgv m) fs in
+                   match x with
+                   | Val _ => let st2 := compile_rest st1 fs' in (mkM st2 gv1 ((cid, fs') :: codes m), Some (x, out st2))
+                   | _ => (mkM st1 gv1 ((cid, fs') :: codes m), Some (x, out st1))
+                   end
       end
   | ORun cid =>
       match nlookup cid (codes m) with
